@@ -215,7 +215,7 @@ def main():
     tier = os.environ.get("VERIF_TIER") or (args[1] if len(args) > 1 and not args[1].startswith("--") else "quick")
     seed = int(os.environ.get("VERIF_SEED", "0") or 0)
     t0 = time.time()
-    from vh import props
+    from vh import props, corr, driver
     if "--replay" in args:
         path = args[args.index("--replay") + 1]
         return props.replay(pid, path)
@@ -339,6 +339,7 @@ def main():
                       "CPython bytes/int/float/struct semantics; pynmeagps/pyrtcm parsers as uninterpreted verdicts"],
         theorems={k: v for k, v in b["theorems"].items()},
         correspondence_diffs=len(result.diffs),
+        not_compared=dict(skipped_large=corr.skipped_large, model_timeouts=driver.model_timeouts),
         leanchecker=b.get("leanchecker"),
         shape_changed=b["shape_changed"],
         code_tie=(dict(theorems=len(b["code_tie"]["theorems"]), proved=b["code_tie"]["proved"], broken=b["code_tie"]["broken"],
